@@ -263,7 +263,10 @@ func (d *Decoder) readMap(dest reflect.Value) error {
 		}
 		return d.readMap(dest)
 	case _mapTypedTag:
-		d.readString(_tagRead)
+		// the type may be a string or a reference to a type seen earlier
+		if _, err := d.readType(); err != nil {
+			return newCodecError("readMap", err)
+		}
 	case _mapUntypedTag:
 		//do nothing
 	default:
